@@ -174,18 +174,41 @@ def enclosing(path, line):
     return None
 
 
-def gate():
-    """No Admitted/Axiom/... anywhere in the development."""
+def closure(pid):
+    """Source files Props/<pid>.v depends on (transitively), by its Require lines."""
+    seen, todo = set(), [os.path.join("Props", pid + ".v")]
+    while todo:
+        f = todo.pop()
+        if f in seen:
+            continue
+        p = os.path.join(COQ, f)
+        if not os.path.exists(p):
+            continue
+        seen.add(f)
+        txt = re.sub(r"\(\*.*?\*\)", "", open(p, errors="replace").read(), flags=re.S)
+        for m in re.finditer(r"\bMixin\.([A-Za-z0-9_]+)\.([A-Za-z0-9_]+)", txt):
+            todo.append(os.path.join(m.group(1), m.group(2) + ".v"))
+    return sorted(seen)
+
+
+def gate(pid=None):
+    """No Admitted/Axiom/... in the files the property's theorems depend on
+    (pid=None: anywhere in the development)."""
     bad = []
-    for dp, _, fs in os.walk(COQ):
-        for f in fs:
-            if not f.endswith(".v"):
-                continue
-            p = os.path.join(dp, f)
-            txt = open(p, errors="replace").read()
-            txt = re.sub(r"\(\*.*?\*\)", "", txt, flags=re.S)  # comments may mention the words
-            for m in FORBIDDEN.finditer(txt):
-                bad.append("%s: %s" % (os.path.relpath(p, ROOT), m.group(0)))
+    if pid is None:
+        files = []
+        for dp, _, fs in os.walk(COQ):
+            files += [os.path.relpath(os.path.join(dp, f), COQ) for f in fs if f.endswith(".v")]
+    else:
+        files = closure(pid) + [os.path.join("Run", pid + ".v")]
+    for f in files:
+        p = os.path.join(COQ, f)
+        if not os.path.exists(p):
+            continue
+        txt = open(p, errors="replace").read()
+        txt = re.sub(r"\(\*.*?\*\)", "", txt, flags=re.S)  # comments may mention the words
+        for m in FORBIDDEN.finditer(txt):
+            bad.append("%s: %s" % (os.path.relpath(p, ROOT), m.group(0)))
     return bad
 
 
@@ -358,7 +381,7 @@ def main(argv):
             notes.append(clog[-2000:])
         rc_make, mlog, failed = coq_build()
         pr = props(pid)
-    gate_bad = gate()
+    gate_bad = gate(pid)
     theorems = pr["theorems"]
     obligations = len(theorems)
     discharged = sum(1 for t in theorems if t["discharged"])
